@@ -1,6 +1,7 @@
 package harness
 
 import (
+	"google.golang.org/grpc/codes"
 	"fmt"
 	"net"
 	"time"
@@ -255,7 +256,41 @@ func scenarioC14UP4(r *Run) {
 		nf := &FARSpec{ID: 2, Action: ActFORW, DstIface: IfAccess, HasFwd: true, HasOHC: true, TEID: g.nextTEID, PeerIP: g.gnbs[r.Ch.Choose(len(g.gnbs), "gnb")]}
 		nf.EndMarker = r.Ch.Choose(3, "sndem") != 1
 		before := len(sw.PacketOuts)
+		// one hand-over in five: one update inside one Write of the modification is
+		// refused by the switch (per-update status; the other updates of the batch are
+		// applied): a failed update emits no marker
+		armed := r.Ch.Choose(5, "update-fails") == 1
+		f0 := sw.Fired["p4-write-fail-update"]
+		if armed {
+			sw.FailKind = "update"
+			sw.FailCode = []codes.Code{codes.NotFound, codes.Internal, codes.InvalidArgument}[r.Ch.Choose(3, "update-fail-code")]
+			sw.Faults.FailNth = sw.Writes + 1 + r.Ch.Choose(3, "update-fail-write")
+		}
 		res := p.Modify(s, &ModSpec{Tag: "uF:handover", UpdateFAR: []*FARSpec{nf}})
+		if armed {
+			sw.Faults.FailNth = 0
+			if sw.Fired["p4-write-fail-update"] > f0 {
+				r.Fault("p4-update-refused-in-hand-over")
+				r.Sim.RunFor(20 * time.Millisecond)
+				r.Op("hand-over of cp=%d with one update refused by the switch (%v) -> accepted=%v, %d PacketOut", s.CPSEID, sw.FailCode, res.Accepted, len(sw.PacketOuts)-before)
+				r.Skel(fmt.Sprintf("ho-update-refused acc=%v", res.Accepted))
+				if n := len(sw.PacketOuts) - before; n > 0 {
+					r.Violate("C14", "marker-for-failed-update:up4", "an update of the hand-over was refused by the switch (%v; modification answered accepted=%v) but %d end marker(s) left as PacketOut", sw.FailCode, res.Accepted, n)
+				}
+				// what the switch holds for this session is no longer known: it is left alone
+				var rest []*CPSession
+				for _, x := range sessions {
+					if x != s {
+						rest = append(rest, x)
+					}
+				}
+				sessions = rest
+				if len(sessions) == 0 {
+					break
+				}
+				continue
+			}
+		}
 		r.Op("hand-over of cp=%d: FAR 2 %v/%d -> %v/%d flag=%v -> accepted=%v", s.CPSEID, old.PeerIP, old.TEID, nf.PeerIP, nf.TEID, nf.EndMarker, res.Accepted)
 		r.Skel(fmt.Sprintf("ho flag=%v acc=%v", nf.EndMarker, res.Accepted))
 		r.Sim.RunFor(20 * time.Millisecond)
